@@ -13,10 +13,12 @@ let ov s = let n = int_of_string s in if n = 0 then None else Some (pos_of_int n
 let kind_of = function
   | 0 -> C.KOther | 1 -> C.KAssign | 2 -> C.KAssignLit | 3 -> C.KAssignMulti | 4 -> C.KIncRef | 5 -> C.KDecRef
   | 6 -> C.KLoadErr | 7 -> C.KUnborrow | 8 -> C.KLoadAddress | 9 -> C.KKeepAlive | 10 -> C.KHeapRef
-  | 11 -> C.KAssume | _ -> failwith "kind"
+  | 11 -> C.KAssume | 12 -> C.KRawRead | _ -> failwith "kind"
 let rec take n l = if n = 0 then ([], l) else match l with x :: r -> let (a, b) = take (n - 1) r in (x :: a, b) | [] -> failwith "take"
 let () =
   let name = ref "" and args = ref [] and blocks = ref [] and cur = ref 0 and ops = ref [] in
+  let cblocks = ref [] and aops = ref [] and claimed = ref [] and defaults = ref [] in
+  let close_ablock t = cblocks := (pos_of_int !cur, C.mk_ablock (List.rev !aops) t) :: !cblocks; aops := [] in
   let close_block t = blocks := (pos_of_int !cur, C.mk_block (List.rev !ops) t) :: !blocks; ops := [] in
   (try while true do
     let l = input_line stdin in
@@ -28,10 +30,11 @@ let () =
         let (srcs, rest) = take (int_of_string n) rest in
         (match rest with
          | m :: rest2 ->
-            let (st, _) = take (int_of_string m) rest2 in
+            let (st, rest3) = take (int_of_string m) rest2 in
+            let owner = (match rest3 with o :: _ -> ov o | [] -> None) in
             let pl = List.map (fun s -> pos_of_int (int_of_string s)) in
             ops := { C.okind = kind_of (int_of_string k); C.odest = ov d; C.orc = b rc; C.oborrowed = b bor;
-                     C.omaynull = b mn; C.oflag = b fl; C.osrcs = pl srcs; C.ostolen = pl st } :: !ops
+                     C.omaynull = b mn; C.oflag = b fl; C.osrcs = pl srcs; C.ostolen = pl st; C.oowner = owner } :: !ops
          | [] -> failwith "op")
     | ["G"; l] -> close_block (C.TGoto (pos_of_int (int_of_string l)))
     | ["C"; k; neg; v; lt; lf] ->
@@ -46,6 +49,22 @@ let () =
          | C.Accept -> print_endline (!name ^ " A")
          | C.Reject (l, i, c, v) ->
              Printf.printf "%s R %d %d %d %d\n" !name (int_of_pos l) (int_of_nat i) (int_of_nat c) (int_of_pos v))
+    | "I" :: n :: _ -> name := n; cblocks := []; aops := []; claimed := []; defaults := []
+    | "Y" :: _ :: rest -> claimed := List.map (fun s -> pos_of_int (int_of_string s)) rest
+    | "D" :: _ :: rest -> defaults := List.map (fun s -> pos_of_int (int_of_string s)) rest
+    | ["b"; n] -> cur := int_of_string n
+    | ["s"; a] -> aops := C.ASet (pos_of_int (int_of_string a)) :: !aops
+    | ["r"; a] -> aops := C.ARead (pos_of_int (int_of_string a)) :: !aops
+    | ["l"] -> aops := C.ALeak :: !aops
+    | "n" :: lk :: _ :: rest -> aops := C.AInit (b lk, List.map (fun s -> pos_of_int (int_of_string s)) rest) :: !aops
+    | ["g"; l] -> close_ablock (C.AGoto (pos_of_int (int_of_string l)))
+    | ["c"; l1; l2] -> close_ablock (C.ABranch (pos_of_int (int_of_string l1), pos_of_int (int_of_string l2)))
+    | ["t"] -> close_ablock C.AReturn
+    | ["u"] -> close_ablock C.AUnreach
+    | ["e"] ->
+        let c = C.mk_cls (List.rev !cblocks) !claimed !defaults in
+        let fuel = nat_of_int (60 * List.length !cblocks + 200) in
+        print_endline (!name ^ (if C.acheck c fuel then " A" else " R 0 0 0 0"))
     | [] -> ()
     | _ -> failwith ("bad line: " ^ l)
     with e -> print_endline (!name ^ " !ERR " ^ Printexc.to_string e))
